@@ -18,7 +18,7 @@ CONSTANTS Ver,          \* "37" | "38" | "39" | "310"
           MaxPrefix,    \* EXTENDED_ARG prefixes per instruction
           Classes,      \* operand classes the environment may emit
           ByteVals,     \* operand bytes
-          Scope,        \* "module" | "fn" (function, first constant None) | "fndoc" (function with a docstring)
+          Scope,        \* "module" | "shadow" | "fn" (function, first constant None) | "fndoc" (function with a docstring)
           Emit
 
 D == INSTANCE Decode
@@ -34,9 +34,12 @@ NZ == INSTANCE Normalize
 \* Scope "module": no flags.  "fn": a function of one parameter (varnames[1]) whose first constant is
 \* None (token 50 is None) and second a string: the encoder's "prepend None" rule is in play.
 \* "fndoc": the first constant is a string, i.e. the docstring (tokens 50 and 51 swap roles).
-IsFn == Scope # "module"
+IsFn == Scope \in {"fn", "fndoc"}
 Base ==
-    [names |-> <<10, 11, 12>>, varnames |-> <<20, 21>>, cellvars |-> <<30>>, freevars |-> <<40>>,
+    [names |-> <<10, 11, 12>>, varnames |-> <<20, 21>>, cellvars |-> <<30>>,
+     \* scope "shadow": ONE name is a cell and a free variable of the same code object (a class body whose method
+     \* uses super() and which reads the enclosing function's own __class__ variable)
+     freevars |-> IF Scope = "shadow" THEN <<30>> ELSE <<40>>,
      consts |-> IF Scope = "fndoc" THEN <<51, 50, 52>> ELSE <<50, 51, 52>>,
      name_keys |-> <<110, 111, 112>>, varname_keys |-> <<120, 121>>, cellvar_keys |-> <<130>>,
      const_keys |-> IF Scope = "fndoc" THEN <<151, 150, 152>> ELSE <<150, 151, 152>>, none_key |-> 150,
